@@ -94,9 +94,16 @@ def Len(p=None):
     return m
 
 
-def Field(base=None, name=None):
+def Field(base=None, name=None, variant=None):
+    """struct field `base.name` or enum-variant field `(base as variant).name`"""
     def m(e):
-        return isinstance(e, tuple) and e[0] == "field" and (name is None or e[2] == name) and (base is None or base(e[1]))
+        if not isinstance(e, tuple):
+            return False
+        if e[0] == "field":
+            return variant is None and (name is None or e[2] == name) and (base is None or base(e[1]))
+        if e[0] == "vfield":
+            return (name is None or e[3] == name) and (variant is None or e[2] == variant) and (base is None or base(e[1]))
+        return False
     return m
 
 
